@@ -69,6 +69,8 @@ func runHTTPAuth(cfg *hx.RunCfg) error {
 			"Definition NH2 := Eval vm_compute in count_if is_h2 cases.\nPrint NH2.\n" +
 			"Definition NMUX_AUTHFAIL := Eval vm_compute in count_if is_mux_authfail cases.\nPrint NMUX_AUTHFAIL.\n" +
 			"Definition NMUX_FORWARD_PROTECTED := Eval vm_compute in count_if is_mux_forward_protected cases.\nPrint NMUX_FORWARD_PROTECTED.\n" +
+			"Definition NGRP_REFUSED_JOIN := Eval vm_compute in count_if is_grp_refused_join cases.\nPrint NGRP_REFUSED_JOIN.\n" +
+			"Definition NGRP_PROTECTED_DELIVERY := Eval vm_compute in count_if is_grp_protected_delivery cases.\nPrint NGRP_PROTECTED_DELIVERY.\n" +
 			"Definition NWEB_UNAUTH := Eval vm_compute in count_if is_web_unauth cases.\nPrint NWEB_UNAUTH.\n" +
 			"Definition NWEB_PUBLIC := Eval vm_compute in count_if is_web_public cases.\nPrint NWEB_PUBLIC.\n",
 	}
